@@ -316,6 +316,38 @@ func (e *Enc) run() {
 			li.writes[n] = true
 		}
 		li.all = ef.all
+		// arrays that the loop writes ONLY at its own local allocations (e.g. the range variable's cell)
+		li.localOnly = map[string][]*ssa.Alloc{}
+		global := map[string]bool{}
+		for b := range li.body {
+			for _, in := range b.Instrs {
+				one := &effect{names: map[string]bool{}, fresh: map[string]bool{}}
+				e.instrEffect(in, one)
+				if s, ok := in.(*ssa.Store); ok {
+					if a := rootAlloc(s.Addr); a != nil {
+						for n := range one.fresh {
+							li.localOnly[n] = append(li.localOnly[n], a)
+						}
+						continue
+					}
+				}
+				if al, ok := in.(*ssa.Alloc); ok {
+					for n := range one.fresh {
+						li.localOnly[n] = append(li.localOnly[n], al)
+					}
+					continue
+				}
+				for n := range one.names {
+					global[n] = true
+				}
+				for n := range one.fresh {
+					global[n] = true
+				}
+			}
+		}
+		for n := range global {
+			delete(li.localOnly, n)
+		}
 		if li.all {
 			// what every "unknown code" call in the body is declared to preserve
 			first := true
@@ -451,6 +483,22 @@ func (e *Enc) run() {
 			}
 		}
 	}
+	// sortedby: the comparator really is "key(i) < key(j)" on the declared key
+	if e.con != nil && len(e.con.SortedBy) > 0 && len(e.fn.Params) == 2 {
+		sl := e.con.SortedBy[0]
+		key := func(p string) string {
+			if len(e.con.SortedBy) > 1 {
+				return fmt.Sprintf("%s[%s].%s", sl, p, e.con.SortedBy[1])
+			}
+			return fmt.Sprintf("%s[%s]", sl, p)
+		}
+		src := fmt.Sprintf("result == keylt(%s, %s)", key(e.fn.Params[0].Name()), key(e.fn.Params[1].Name()))
+		if ex, err := parseExpr(src); err == nil {
+			e.con.Ensures = append(e.con.Ensures, &Clause{E: ex, Tags: e.con.SortedByTags, Src: "sortedby:" + src, File: e.con.File, Line: e.con.Line})
+			e.con.SortedBy = append([]string{}, e.con.SortedBy...)
+			e.sortedByAdded = true
+		}
+	}
 	// postconditions
 	if e.con != nil {
 		for _, r := range e.rets {
@@ -473,7 +521,7 @@ func (e *Enc) run() {
 				vars["result"] = r.res[0]
 			}
 			st := r.st
-			env := &Env{e: e, st: &st, old: &e.entry, vars: vars, at: r.b.Instrs[len(r.b.Instrs)-1]}
+			env := &Env{e: e, st: &st, old: &e.entry, vars: vars, at: r.b.Instrs[len(r.b.Instrs)-1], asGoal: true}
 			for _, en := range e.con.Ensures {
 				if e.active(en) {
 					e.obligeClause("post", en, r.b.Instrs[len(r.b.Instrs)-1].Pos(), env.formula(en.E))
@@ -635,7 +683,7 @@ func (e *Enc) instrPreserves(in ssa.Instruction) []string {
 	}
 	c := ci.Common()
 	if c.IsInvoke() {
-		return e.db.ifacePreserves[ifaceMethodKey(c.Method)]
+		return e.db.ifacePreservesFor(c.Method)
 	}
 	switch callee := c.Value.(type) {
 	case *ssa.Function:
@@ -1009,6 +1057,7 @@ func (e *Enc) loopHeader(b *ssa.BasicBlock, li *loopInfo, fwd []*ssa.BasicBlock,
 		e.loopEdge(li, p, "inv-entry")
 	}
 	// havoc
+	preLoop := st.clone()
 	for blk := range li.body {
 		for _, in := range blk.Instrs {
 			for _, a := range escapes(in) {
@@ -1041,6 +1090,46 @@ func (e *Enc) loopHeader(b *ssa.BasicBlock, li *loopInfo, fwd []*ssa.BasicBlock,
 				e.havocAll(st) // maps / element writes via builtins: coarse
 				break
 			}
+		}
+	}
+	// arrays written only at the loop's own local allocations: every other cell keeps its value
+	if len(li.localOnly) > 0 {
+		wm := e.watermark(&preLoop)
+		for n, allocs := range li.localOnly {
+			if li.all {
+				// unknown code runs in the loop: only arrays it is declared to preserve can be framed
+				kept := false
+				for _, p := range li.preserve {
+					if strings.HasPrefix(n, p) {
+						kept = true
+					}
+				}
+				if !kept {
+					continue
+				}
+			}
+			srt, ok := arrSorts[n]
+			if !ok || !strings.HasPrefix(srt, "(Array Ref ") {
+				continue
+			}
+			old := e.arrRaw(&preLoop, n, srt)
+			nw := e.arrRaw(st, n, srt)
+			if old == nw {
+				continue
+			}
+			var mine []string
+			for _, a := range allocs {
+				if av, known := e.vals[a]; known && !li.body[a.Block()] {
+					r := av.c[0]
+					mine = append(mine, eq("r", r), eq(owner("r"), r), eq(owner(owner("r")), r))
+				}
+			}
+			// objects allocated inside the loop lie above the watermark at the loop head
+			inLoop := func(x string) string {
+				return fmt.Sprintf("(and ((_ is obj) %s) (> (oid %s) %s) (< (oid %s) (+ |alloc!0| 1000000000)))", x, x, wm, x)
+			}
+			mine = append(mine, inLoop("r"), inLoop(owner("r")), inLoop(owner(owner("r"))))
+			e.assume(fmt.Sprintf("(forall ((r Ref)) (! (=> (not %s) (= (select %s r) (select %s r))) :pattern ((select %s r))))", or(mine...), nw, old, nw))
 		}
 	}
 	// the allocation watermark only grows
